@@ -62,7 +62,11 @@ class RecordingSession(ReportingSession):
 
 def _plain_event(event, thmap):
     from props import c18
-    return c18.plain_event(event, thmap)
+    c18.SUITE_POSITIONS[0] = True          # a live stream: sibling suites are sorted by (rank, declared position)
+    try:
+        return c18.plain_event(event, thmap)
+    finally:
+        c18.SUITE_POSITIONS[0] = False
 
 
 class RecordingBackend(ReportingBackend, ReportingSessionBuilderMixin):
